@@ -250,7 +250,8 @@ recovery replay and the install: the node that applied live, the node restarted 
 point, the node recovered from a peers file and a node that installed a snapshot taken at any
 index and applied the suffix hold the same database. -/
 theorem store_paths_converge (A : CmdSem) (cs : List Cmd) (hd : Denotes A cs)
-    (liveEnv replayEnv recEnv recReplayEnv snapEnv instEnv : Nat → Env) (dn : C33.Down) (peers : Config) (k : Nat) :
+    (liveEnv replayEnv recEnv recReplayEnv snapEnv instEnv : Nat → Env) (dn : C33.Down) (peers : Config)
+    (hv : checkConfig peers = true) (k : Nat) :
     let n := runWritesE A liveEnv 0 {} cs
     n.live = replay [] cs ∧
     (openNodeE A replayEnv recEnv (crash n)).live = n.live ∧
@@ -273,7 +274,7 @@ theorem store_paths_converge (A : CmdSem) (cs : List Cmd) (hd : Denotes A cs)
     rw [← hn] at this; exact this
   · have hg := C33.goDown_spec (n := n) (by rw [hn]; exact C22.good_run C22.good_init _) dn
     rw [openNodeE_eq A _ _ _ (by show Denotes A (C33.goDown n dn).hist; rw [hg.2.2.1, hh]; exact hd)]
-    have := (C33.recover_keeps_applied (cs.map C22.Op.write) dn peers).1
+    have := (C33.recover_keeps_applied (cs.map C22.Op.write) dn peers hv).1
     rw [← hn] at this; exact this
   · rw [replayE_eq A snapEnv _ 0 [] (fun c hc => hd c (List.mem_of_mem_take hc)),
       replayE_eq A instEnv _ k _ (hd.drop k), ← replay_append, List.take_append_drop, hlive]
